@@ -419,7 +419,7 @@ func execute(w Workload) (fail *kit.Failure, ev map[string]int, hist []string) {
 		}
 	}()
 	defer func() {
-		if fail != nil && strings.HasSuffix(fail.Kind, "FAIL") {
+		if fail != nil && (strings.HasSuffix(fail.Kind, "FAIL") || fail.Kind == "CLONE!=ROOT" || fail.Kind == "DIVERGED") {
 			// diagnostics for a failing client step: the stored log of every document
 			for d, k := range r.keys {
 				di, err := documents.FindDocInfoByKey(ctx, s.BE, proj, k)
@@ -1115,7 +1115,12 @@ func TestReplay(t *testing.T) {
 			}
 			// schedule-dependent: run the workload several times
 			for i := 0; i < 20; i++ {
-				if f, _, _ := execute(w); f != nil {
+				if f, _, hist := execute(w); f != nil {
+					if os.Getenv("VERIF_SHOW_HISTORY") != "" {
+						for _, h := range hist {
+							fmt.Println("    " + h)
+						}
+					}
 					return f
 				}
 			}
